@@ -72,6 +72,10 @@ Json gen(sim::Rng& rng, int tier)
     }
     p["issuers"] = ji;
     p["hosts"] = two_hosts ? 2 : 1;
+    // the second host may be down (nothing listens on its port: every connection attempt is refused) while the first one
+    // serves; descriptor numbers of the failed attempts are reused by the connections to the host that is up
+    const bool host2_down = two_hosts && rng.chance(0.4);
+    if (host2_down) p["host2_down"] = true;
     // some issuers work sequentially: the next request goes out the moment the previous one is settled - onto the
     // connection that has just become free (and that a closing server is about to take away)
     if (rng.chance(closing_server ? 0.7 : 0.3)) {
@@ -107,7 +111,7 @@ Json gen(sim::Rng& rng, int tier)
     // runs on the issuing thread), in the connection's own queue, around the claim - so that the tail of the previous
     // user's work overlaps with the start of the next user's. (A pause *inside* then() holds the promise's lock and
     // only delays the resolver; the pause has to come before the lock.)
-    if (closing_server && rng.chance(0.5)) {
+    if ((closing_server && rng.chance(0.5)) || (host2_down && rng.chance(0.6))) {
         p["latency_us"] = static_cast<int>(2 + rng.below(20));
         static const char* kHand[] = { "queue.pop.load", "queue.pop.load", "queue.pop.load", "queue.push.exchange", "queue.push.link", "sys.connect", "atomic", "promise.then.push", "sys.write" };
         Json hs = Json::array();
@@ -320,11 +324,12 @@ void run(const Json& plan)
     Server srv2;
     srv2.port = srv.port + 1;
     srv2.host_index = 1;
+    const bool host2_down = two_hosts && plan.flag("host2_down");
     if (two_hosts) {
         srv2.by_tag = srv.by_tag;
         srv2.cfg = srv.cfg;
-        srv2.start();
-        r.probe("two-hosts");
+        if (!host2_down) srv2.start();
+        r.probe(host2_down ? "second-host-down" : "two-hosts");
     }
     auto port_of = [&](u64 tag) { return two_hosts && srv.cfg[tag].num("host", 0) >= 1 ? srv2.port : srv.port; };
     auto all_conns = [&] {
